@@ -20,7 +20,7 @@ from odl.set.space import LinearSpaceElement
 from odl.space.weighting import (
     ArrayWeighting, ConstWeighting, CustomDist, CustomInner, CustomNorm,
     Weighting)
-from odl.util import indent, signature_string
+from odl.util import indent, is_floating_dtype, signature_string
 from odl.util.ufuncs import ProductSpaceUfuncs
 
 __all__ = ('ProductSpace',)
@@ -401,12 +401,14 @@ class ProductSpace(LinearSpace):
     @property
     def real_space(self):
         """Variant of this space with real dtype."""
-        return ProductSpace(*[space.real_space for space in self.spaces])
+        return ProductSpace(*[space.real_space for space in self.spaces],
+                            weighting=self.weighting)
 
     @property
     def complex_space(self):
         """Variant of this space with complex dtype."""
-        return ProductSpace(*[space.complex_space for space in self.spaces])
+        return ProductSpace(*[space.complex_space for space in self.spaces],
+                            weighting=self.weighting)
 
     def astype(self, dtype):
         """Return a copy of this space with new ``dtype``.
@@ -434,8 +436,13 @@ class ProductSpace(LinearSpace):
         if dtype == current_dtype:
             return self
         else:
+            kwargs = {}
+            if is_floating_dtype(dtype):
+                # As in `TensorSpace.astype`, weighting (which includes the
+                # exponent) is kept only for floating-point types
+                kwargs['weighting'] = self.weighting
             return ProductSpace(*[space.astype(dtype)
-                                  for space in self.spaces])
+                                  for space in self.spaces], **kwargs)
 
     def element(self, inp=None, cast=True):
         """Create an element in the product space.
@@ -673,11 +680,19 @@ class ProductSpace(LinearSpace):
         >>> pspace2[:-1, 0]
         ProductSpace(rn(2), 2)
         """
+        if isinstance(self.weighting, ConstWeighting):
+            # A constant weighting (including its exponent) applies to any
+            # selection of components
+            kwargs = {'weighting': self.weighting}
+        else:
+            kwargs = {}
+
         if isinstance(indices, Integral):
             return self.spaces[indices]
 
         elif isinstance(indices, slice):
-            return ProductSpace(*self.spaces[indices], field=self.field)
+            return ProductSpace(*self.spaces[indices], field=self.field,
+                                **kwargs)
 
         elif isinstance(indices, tuple):
             # Use tuple indexing for recursive product spaces, i.e.,
@@ -712,11 +727,11 @@ class ProductSpace(LinearSpace):
                                      'product space: remaining indices '
                                      '{}'.format(rest_indcs))
                 if not rest_indcs:
-                    return ProductSpace(*spaces)
+                    return ProductSpace(*spaces, **kwargs)
                 elif all(isinstance(space, ProductSpace) for space in spaces):
                     return ProductSpace(
                         *(space[rest_indcs] for space in spaces),
-                        field=self.field)
+                        field=self.field, **kwargs)
                 else:
                     raise IndexError('too many indices for recursive '
                                      'product space: remaining indices '
@@ -727,7 +742,7 @@ class ProductSpace(LinearSpace):
 
         elif isinstance(indices, list):
             return ProductSpace(*[self.spaces[i] for i in indices],
-                                field=self.field)
+                                field=self.field, **kwargs)
 
         else:
             raise TypeError('`indices` must be integer, slice, tuple or '
